@@ -45,6 +45,10 @@ class C:
         return hash(("C", self.tag))
 
 
+class AC(A, C):
+    """Instance of both A and C, which are otherwise unrelated (narrowing A by isinstance(x, C) is not empty)."""
+
+
 class Color(enum.Enum):
     RED = 1
     GREEN = 2
